@@ -56,7 +56,8 @@ func c19Fields(typ string) []c19Field {
 	case "boolean":
 		return append(common, c19Field{"1", "ok"}, c19Field{"0", "ok"}, c19Field{"t", "ok"}, c19Field{"f", "ok"}, c19Field{"TRUE", "ok"}, c19Field{"false", "ok"}, c19Field{"x", "bad"}, c19Field{"", "bad"})
 	}
-	return append(common, c19Field{"text", "ok"}, c19Field{"", "ok"}, c19Field{"has SEP inside", "ok"}, c19Field{"it's; \"quoted\"", "ok"}, c19Field{"1", "ok"})
+	return append(common, c19Field{"text", "ok"}, c19Field{"", "ok"}, c19Field{"has SEP inside", "ok"}, c19Field{"it's; \"quoted\"", "ok"}, c19Field{"1", "ok"},
+		c19Field{strings.Repeat("L", 500), "bad"}) // converts fine but the row exceeds the 400-byte limit: the INSERT must refuse it
 }
 
 // expected conversion, written independently of csvToSql
@@ -242,6 +243,7 @@ func (d *c19DB) runCase(cs c19Case) (problem string, nontrivial bool, desc strin
 			continue
 		}
 		e := expect{ok: true, vals: make([]any, len(cs.types))}
+		size := len(cs.types) // one NULL-marker byte per column
 		for mi, di := range cs.dstCols {
 			v, ok := c19Convert(cs.types[di], rec[cs.srcCols[mi]])
 			if !ok {
@@ -249,6 +251,17 @@ func (d *c19DB) runCase(cs c19Case) (problem string, nontrivial bool, desc strin
 				break
 			}
 			e.vals[di] = v
+			switch x := v.(type) {
+			case string:
+				size += 4 + len(x)
+			case int64:
+				size += map[string]int{"int": 4, "bigint": 8}[cs.types[di]]
+			case bool:
+				size++
+			}
+		}
+		if size > 400 {
+			e.ok = false // the row does not fit a cell: refused by the INSERT, reported as an error
 		}
 		exp = append(exp, e)
 	}
